@@ -68,11 +68,21 @@ def one(job):
     os.makedirs(tmp, exist_ok=True)
     env = core.base_env(tmpdir=tmp, extra=(dict(job["extra_env"], S4_VERIF_TRACE=job["trace"]) if job["trace"] else dict(job["extra_env"])))
     t0 = time.monotonic()
-    p = subprocess.Popen([s4, "--color", "never", "-t=+00:00"] + job["files"], env=env, stdin=subprocess.DEVNULL, stdout=subprocess.DEVNULL,
-                         stderr=subprocess.PIPE, start_new_session=True)
+    closed = job.get("stdout_closed")
+    p = subprocess.Popen([s4, "--color", "never", "-t=+00:00"] + job["files"], env=env, stdin=subprocess.DEVNULL,
+                         stdout=(subprocess.PIPE if closed is not None else subprocess.DEVNULL), stderr=subprocess.PIPE, start_new_session=True)
     res = dict(job=job, sent=False, t_sig=None, t_exit=None, rc=None, timed_out=False, event_seen=None)
     try:
-        if job["mode"] == "normal":
+        if closed is not None:
+            # the reader of stdout goes away (`s4 ... | head -1`): read `closed` bytes, then close the pipe; the process ends by itself
+            try:
+                if closed:
+                    p.stdout.read(closed)
+            finally:
+                p.stdout.close()
+            p.stdout = None
+            _, err = p.communicate(timeout=180)
+        elif job["mode"] == "normal":
             _, err = p.communicate(timeout=180)
         else:
             if job["sig_after_event"] == "tmpdir-not-empty":
@@ -164,7 +174,7 @@ def run(ctx):
     d = ctx.casedir("in")
     inputs = make_inputs(ctx, rng, d)
     ctx.rule = ("1..6 compressed / archived journal and evtx sources per run; normal runs under random and planned schedules (incl. a delay after each "
-                "worker's last send); SIGINT at random instants and at hook-defined phases (before anything, temp file created but not registered, "
+                "worker's last send) and with a stdout reader that goes away (| head); SIGINT at random instants and at hook-defined phases (before anything, temp file created but not registered, "
                 "registered/extracting, extracted, printing); planned-silence promptness test; distinct = (mode/phase, number of sources, kinds, "
                 "containers, outcome)")
     ctx.assumptions = ["SIGINT is delivered to the process as a terminal Ctrl-C would (kill(pid, SIGINT))",
@@ -194,6 +204,10 @@ def run(ctx):
             # main can return while a worker still holds its NamedTempFile: widen that window
             env = {"S4_VERIF_PLAN": "sent.FileSummary:*:*=%d" % rng.choice([2000, 20000, 100000])}
         add("normal", pick_files(), env, phase="normal:" + ("plain" if not env else list(env)[0][9:].lower()))
+    # normal runs whose stdout reader goes away (from the start, after the first bytes, later)
+    for _ in range(ctx.pick(40, 400)):
+        add("normal", pick_files(), {}, phase="normal:stdout-closed")
+        jobs[-1]["stdout_closed"] = rng.choice([0, 1, 80, 80, 4096, 70000])
     # SIGINT at random instants
     for _ in range(ctx.pick(120, 1500)):
         add("sigint", pick_files(), {}, None, rng.choice([0.0, 0.002, 0.005, 0.01, 0.02, 0.05, 0.1, 0.2, 0.4]), phase="sigint:random-instant")
